@@ -80,3 +80,12 @@ PROPS["C13"] = {
     "trusted_base": ["style ids are abstracted to atoms per case by the harness"],
     "assumptions": ["a style is removed only while no content uses it (removing a style in use leaves a dangling reference: user error, not judged)", "numbering / note ids of library-created documents are C15's; for opened documents with their own numbering see the known finding"],
 }
+
+PROPS["C09"] = {
+    "n": {"quick": 1500, "thorough": 40000},
+    "per_shard": 60,
+    "corr_targets": ["Corr/TableCorr.vo"],
+    "corr": "Corr/TableCorr.v: Model.Table.step (physical cells, Go slice rules incl. panics) vs the table after every call (grid, span, vMerge, paragraph atoms, result class)",
+    "trusted_base": ["cell contents are abstracted to the atom of the first run of each paragraph"],
+    "assumptions": ["tables are created by CreateTable/AddTable (every cell has properties); cells hold no pictures (CopyTable shares drawing objects)"],
+}
